@@ -103,6 +103,9 @@ def hexdouble(x):
     return "0x%016x" % struct.unpack("<Q", struct.pack("<d", float(x)))[0]
 
 
+BENIGN_SINKS = ("5SimTK6StringC", "Exception", "ErrorCheck", "9Exception")
+
+
 class RunError(Exception):
     pass
 
@@ -301,7 +304,7 @@ def compare_shadow_native(sym, conc, rtol=1e-9, atol=1e-11):
             bad.append((name, "missing in native run"))
             continue
         a, b = sym.out_value(name), conc.out_value(name)
-        if a != a and b != b:
+        if (a != a and b != b) or a == b:
             continue
         if not (abs(a - b) <= atol + rtol * max(abs(a), abs(b))):
             bad.append((name, a, b))
@@ -356,6 +359,15 @@ def goal_numeric(enc, ob, tol=1e-7):
     rs = [chk(c) for c in ob.goal]
     go = any(rs) if ob.any else all(rs)
     return hy, go, detail
+
+
+def is_linear(p, maxterms=60):
+    if len(p) > maxterms:
+        return False
+    for m in p:
+        if len(m) > 1 or (m and m[0][1] != 1):
+            return False
+    return True
 
 
 class Known:
@@ -441,12 +453,16 @@ def explore_from(spec, inst, st, res, rng, seeds, angle_pins, g):
             res.errors.append("shadow != native on %s base %d: %s" % (inst["name"], g, bad[:3]))
             continue
         if tr.n_events:
-            res.tainted += 1
-            for e in tr.events:
-                k = "%s@%s" % (e[0], e[2][:80])
-                res.taint_reasons[k] = res.taint_reasons.get(k, 0) + 1
-            if not inst.get("allow_events"):
-                continue
+            # concretisation inside text formatting (exception messages, String(double)) cannot feed back into numerics
+            bad_events = [e for e in tr.events if not (e[0].startswith("concretize") and any(p in e[2] for p in BENIGN_SINKS))]
+            res.extra["formatting_concretisations_ignored"] = res.extra.get("formatting_concretisations_ignored", 0) + (len(tr.events) - len(bad_events))
+            if bad_events or tr.n_events > len(tr.events):
+                res.tainted += 1
+                for e in bad_events:
+                    k = "%s@%s" % (e[0], e[2][:80])
+                    res.taint_reasons[k] = res.taint_reasons.get(k, 0) + 1
+                if not inst.get("allow_events"):
+                    continue
         new = check_path(spec, inst, st, res, rng, tr, sd, angle_pins, g)
         if inst.get("paths", 1) > 1:
             for nsd in new:
@@ -462,7 +478,7 @@ def check_path(spec, inst, st, res, rng, tr, seeds, angle_pins, g):
         t0 = time.time()
         free_all = free == "ALL"
         enc = Encoder(tr, free=() if free_all else free, angle_pins=angle_pins, free_all=free_all,
-                      max_terms=inst.get("max_terms", st.max_terms))
+                      max_terms=inst.get("max_terms", st.max_terms), abstract_big=inst.get("abstract_big", False))
         try:
             obs = spec.obligations(enc, inst, tr)
             pc = enc.path_condition()
@@ -500,9 +516,15 @@ def check_path(spec, inst, st, res, rng, tr, seeds, angle_pins, g):
             continue
         res.max_terms = max(res.max_terms, max((len(p) for p in enc.memo.values()), default=0))
         res.assumptions |= set(enc.assumptions)
+        if enc.stats.get("literals_rounding_dependent_dropped"):
+            res.extra["path_literals_rounding_dependent_dropped"] = res.extra.get("path_literals_rounding_dependent_dropped", 0) + enc.stats["literals_rounding_dependent_dropped"]
+        if enc.stats.get("abstracted_nodes"):
+            res.extra["nodes_abstracted_to_opaque_variables"] = res.extra.get("nodes_abstracted_to_opaque_variables", 0) + enc.stats["abstracted_nodes"]
         if enc.stats.get("literals_tied_in_exact_arithmetic"):
             res.extra["path_literals_tied_in_exact_arithmetic_dropped"] = res.extra.get("path_literals_tied_in_exact_arithmetic_dropped", 0) + enc.stats["literals_tied_in_exact_arithmetic"]
         pchyps = [c for _, c in pc]
+        if hasattr(spec, "input_domain"):
+            pchyps = pchyps + list(spec.input_domain(enc, inst))     # documented preconditions on the inputs
         # the seed must satisfy every hypothesis numerically (witness of reachability)
         for c in pchyps:
             if not c.holds_at(enc.ring, enc.vals, 1e-9):
@@ -539,6 +561,18 @@ def check_path(spec, inst, st, res, rng, tr, seeds, angle_pins, g):
                     smt, names = q.smt()
                     res.extra["decided_after_clearing_denominators"] = res.extra.get("decided_after_clearing_denominators", 0) + 1
                     r = None
+            if r is None and inst.get("pc_filter") == "linear-first" and all(is_linear(cc.p) for cc in ob.goal):
+                # stage 1: only the linear literals of the path condition as hypotheses (weaker hypotheses: unsat is still a proof)
+                lin_h = [cc for cc in pchyps if is_linear(cc.p)] + [cc for cc in ob.hyps if is_linear(cc.p)]
+                q1 = Query(enc, ob.name, lin_h, ob.goal, ob.extra_smt, goal_any=ob.any)
+                smt1, names1 = q1.smt(logic="QF_LRA")
+                r1, model1, dt1 = run_z3(smt1, names1, rlimit=st.rlimit, seed=st.seed & 0xFFFF, timeout_ms=st.z3_timeout_ms)
+                res.queries += 1
+                res.solver_time += dt1
+                if r1 == "unsat":
+                    r, model, dt, smt, names = r1, model1, 0.0, smt1, names1
+                    res.queries -= 1
+                    res.extra["decided_with_linear_literals_only"] = res.extra.get("decided_with_linear_literals_only", 0) + 1
             if r is None:
                 r, model, dt = run_z3(smt, names, rlimit=st.rlimit, seed=st.seed & 0xFFFF, timeout_ms=st.z3_timeout_ms)
             else:
@@ -593,18 +627,22 @@ def flip_decisions(spec, inst, st, res, enc, pc, seeds):
     maxflip = inst.get("flips_per_path", 12)
     hyps = []
     extra = spec.input_domain(enc, inst) if hasattr(spec, "input_domain") else []
+    linear_only = inst.get("flip_linear_only", False)
     for k, (idx, c) in enumerate(pc):
         if len(out) >= maxflip:
             break
+        if linear_only and not is_linear(c.p):
+            continue
         q = Query(enc, "flip d%d" % idx, hyps + extra + [c.negated()], [])
         smt, names = q.smt()
         smt = smt.replace("(assert (not true))", "")
-        r, model, dt = run_z3(smt, names, rlimit=st.rlimit // 4, seed=3, timeout_ms=30000)
+        r, model, dt = run_z3(smt, names, rlimit=st.rlimit // 10, seed=3, timeout_ms=inst.get("flip_timeout_ms", 4000))
         res.queries += 1
         res.solver_time += dt
         if r == "sat":
             out.append(model_to_seeds(enc, model, seeds))
         hyps.append(c)
+    # later decisions first as well: alternate ends so that deep and shallow alternatives are both explored
     return out
 
 
@@ -620,7 +658,7 @@ def handle_sat(spec, inst, st, res, tr, enc, ob, model, seeds, angle_pins, free,
     if compare_shadow_native(tr2, co2):
         res.abstraction_cex.append(dict(instance=inst["name"], obligation=ob.name, reason="replay: shadow != native"))
         return
-    enc2 = Encoder(tr2, free=() if free_all else free, angle_pins={}, free_all=free_all, max_terms=enc.ring.max_terms)
+    enc2 = Encoder(tr2, free=() if free_all else free, angle_pins={}, free_all=free_all, max_terms=enc.ring.max_terms, abstract_big=enc.abstract_big)
     # all pinned inputs now take their (double) seed values exactly; formerly exact angle pins become free atoms evaluated numerically
     try:
         obs2 = spec.obligations(enc2, inst, tr2)
